@@ -291,10 +291,31 @@ std::vector<Mutant> make_mutants(const std::vector<Obj>& base, bool column_level
             m.desc = "toggle UNIQUE of index " + o.name;
             if (done) out.push_back(m);
             // indexed columns: remove one / add one / reorder
-            auto open = o.sql.rfind('('), close = o.sql.rfind(')');
+            // the indexed-column list: first parenthesis after the table name up to its match (expression indices nest parentheses)
+            size_t open = o.sql.find('('), close = std::string::npos;
+            {
+                int depth = 0;
+                for (size_t p2 = open; open != std::string::npos && p2 < o.sql.size(); ++p2)
+                {
+                    if (o.sql[p2] == '(') ++depth;
+                    if (o.sql[p2] == ')' && --depth == 0) { close = p2; break; }
+                }
+            }
             if (open != std::string::npos && close != std::string::npos && close > open)
             {
-                auto cols = split(o.sql.substr(open + 1, close - open - 1), ',');
+                std::vector<std::string> cols;
+                {
+                    std::string cur;
+                    int depth = 0;
+                    for (char ch : o.sql.substr(open + 1, close - open - 1))
+                    {
+                        if (ch == '(') ++depth;
+                        if (ch == ')') --depth;
+                        if (ch == ',' && depth == 0) { cols.push_back(cur); cur.clear(); }
+                        else cur += ch;
+                    }
+                    cols.push_back(cur);
+                }
                 // find another column of the table to add
                 std::string other;
                 for (auto& b : base)
